@@ -80,6 +80,18 @@ chk("C17", "model_checking",
     "TLA+ spec (X509Time) model-checked by TLC; exhaustive spec->impl replay; native sweep; impl->spec trace validation",
     "DESIGN.md §3 C17")
 
+chk("C06", "model_checking",
+    "RtrSession models client, server connection and a changing source with one action per server call into the source; TLC checks "
+    "SyncCorrect (data handed to the target = source data for the End-of-Data state restricted to the negotiated version; state and "
+    "timing adopted), version stability, no stale session, plus liveness, for every client/server version pair incl. downgrade against "
+    "a legacy cache, three client start states and diff windows, with source updates interleaved at every point. Every emitted "
+    "behaviour is executed with the real Client and real Server on a paused single-threaded runtime (updates injected at the recorded "
+    "source-call index, serials at 0 and at wrap-around); long randomly scheduled connections are recorded at the PayloadSource/"
+    "PayloadTarget boundary and validated step by step by Trace_RtrSession with all invariants on.",
+    "Payload universe of 5 items; PDU delivery folded into the send action; legacy cache played by the harness; single-threaded schedules.",
+    "TLA+ spec (RtrSession) model-checked by TLC incl. liveness; behaviours replayed into real client+server; impl->spec trace validation",
+    "DESIGN.md §3 C06")
+
 ALL = ["C%02d" % i for i in range(1, 18)]
 
 
